@@ -90,9 +90,13 @@ Definition render_sels (c : case) (outv : str -> option val) (vars : list (str *
   Ok (concat l).
 
 (* ---------- validity of a case (the domain the property quantifies over) ---------- *)
+(* a valid map request of C01 (well-formed, denotation defined), whose MapSpecs name the dimensions of
+   every array consistently (validate_consistent_axes: enforced by Pipeline construction), with distinct
+   values in every input array *)
 Definition valid (c : case) : bool :=
   request_ok (c_funcs c) (c_inputs c)
   && is_ok (denote_run sym_body (c_funcs c) (c_inputs c) (c_internal c))
+  && consistent (all_aspecs (specs_of c))
   && forallb (fun kv => match snd kv with VA a => nodup_str (dat a) | VS _ => true end) (c_inputs c)
   && (c_kind c <? 2).
 
